@@ -149,7 +149,7 @@ func (g *Global) LLString() string {
 		fmt.Fprintf(buf, ", partition %s", quote(g.Partition))
 	}
 	if g.Comdat != nil {
-		if g.Comdat.Name == g.Name() {
+		if g.Comdat.Name == g.GlobalName {
 			buf.WriteString(", comdat")
 		} else {
 			fmt.Fprintf(buf, ", %s", g.Comdat)
